@@ -1,4 +1,97 @@
 import CifModel.Model.Writer
 import CifModel.Model.Decode
+import CifModel.Spec.TextProtocol
+import CifModel.Lemmas.WriterFold
+import CifModel.Lemmas.WriterText
+import CifModel.Lemmas.DecodeMarker
+/-
+  Property C02 — everything `cif_write` emits re-parses to an equivalent CIF.
+
+  Theorems about the executable model of the writer (`Model/Writer.lean`) and of `decode_text` (`Model/Decode.lean`).
+-/
 namespace CifModel
+open Model.Writer Model.Decode
+open Lemmas.DecodeMarker (firstLine)
+
+/-- side condition for writing a text field WITHOUT fold and prefix markers: the text must not itself look marked —
+    it starts with the semicolon that switches decoding off, or its first line does not end in a backslash followed by
+    blanks only (this is what `has_reserved_start` of cif_analyze_string establishes before `write_char` clears `fold`) -/
+def C02_plainAdmissible (s : Str) : Prop :=
+  s.head? = some 59 ∨ Spec.TextProtocol.endsBslBlank (firstLine s) = false
+
+/-- **The inverse-pair theorem of the folding / prefix protocol.**  For every non-empty text `s` without CR and EVERY
+    combination of the `fold` and `prefix` flags (the unmarked combination under `C02_plainAdmissible`): whenever
+    `write_text` produces a body, `decode_text` (line unfolding and prefix removal enabled: the CIF 2.0 defaults, and the
+    CIF 1.1 options of property C13) maps that body back to `s`. -/
+theorem C02_text_protocol (s : Str) (fold pre : Bool) (body : Str)
+    (hcr : (13 : CU) ∉ s)
+    (hside : fold = true ∨ pre = true ∨ C02_plainAdmissible s)
+    (hw : textBody s fold pre = .ok body) :
+    decodeText true true body = s := by
+  unfold textBody at hw
+  by_cases h00 : fold = false ∧ pre = false
+  · simp only [h00, and_self, ↓reduceIte] at hw
+    cases hw
+    apply Lemmas.DecodeMarker.decodeText_plain s hcr
+    rcases hside with h | h | h
+    · rw [h00.1] at h; cases h
+    · rw [h00.2] at h; cases h
+    · exact h
+  · simp only [h00, ↓reduceIte] at hw
+    have hfp : fold = true ∨ pre = true := by
+      cases fold <;> cases pre <;> simp_all
+    cases hq : textPhys fold pre (targetLength pre) (splitLines s) with
+    | error e => simp [hq] at hw
+    | ok Q =>
+      simp only [hq] at hw
+      cases hw
+      have hsp := Lemmas.WriterText.splitLines_spec s
+      have hno : ∀ l ∈ splitLines s, Lemmas.DecodeLines.NoEol l := fun l hl =>
+        Lemmas.WriterText.noEol_of_no10_no13 (hsp.1 l hl)
+          (fun h13 => hcr (Lemmas.WriterText.splitLines_mem s l hl 13 h13))
+      obtain ⟨hne, hnoe, hunf⟩ :=
+        Lemmas.WriterText.textPhys_spec fold pre hfp _ (splitLines s) Q (Lemmas.WriterText.splitLines_ne_nil s) hno hq
+      cases Q with
+      | nil => exact absurd rfl hne
+      | cons p ps =>
+        rw [Lemmas.DecodeMarker.decodeText_marked fold pre hfp p ps (hnoe p List.mem_cons_self)
+          (fun q hq => hnoe q (List.mem_cons_of_mem _ hq))]
+        rw [hunf, hsp.2]
+
+/-- **`fold_line` makes progress.**  Wherever semicolons are harmless (the prefix protocol is on, or the line holds no
+    semicolon — `write_char` forces the prefix whenever it folds a text containing one) the value returned for a non-empty
+    line lies in `(0, length]`: the segment loop of `write_text` terminates and never returns CIF_INTERNAL_ERROR. -/
+theorem C02_fold_line_progress (line : Str) (doFold : Bool) (target window : Nat) (forPrefix : Bool)
+    (hne : line ≠ []) (hw : 0 < window) (hwt : window < target) (hsemi : forPrefix = true ∨ (59 : CU) ∉ line) :
+    0 < foldLine line doFold target window forPrefix ∧ foldLine line doFold target window forPrefix ≤ line.length :=
+  ⟨Lemmas.WriterFold.foldLine_pos line doFold target window forPrefix hne hw hwt hsemi,
+   Lemmas.WriterFold.foldLine_le line doFold target window forPrefix⟩
+
+/-- `write_text` never fails (no CIF_INTERNAL_ERROR) when it prefixes or the text holds no semicolon -/
+theorem C02_text_total (s : Str) (fold pre : Bool) (hsemi : pre = true ∨ (59 : CU) ∉ s) :
+    ∃ body, textBody s fold pre = .ok body := by
+  unfold textBody
+  split
+  · exact ⟨s, rfl⟩
+  · have hwt : WINDOW < targetLength pre := by cases pre <;> decide
+    have hl : pre = true ∨ ∀ l ∈ splitLines s, (59 : CU) ∉ l := by
+      rcases hsemi with h | h
+      · left; exact h
+      · right; exact fun l hl hm => h (Lemmas.WriterText.splitLines_mem s l hl 59 hm)
+    obtain ⟨Q, hQ⟩ := Lemmas.WriterText.textPhys_ok fold pre (targetLength pre) hwt (splitLines s) hl
+    rw [hQ]
+    exact ⟨_, rfl⟩
+
+-- non-vacuity: the hypotheses are satisfiable and the statement speaks about real encodings
+example : textBody (a!"ab\\\ncd;") true true = .ok (a!"> \\\\\n> ab\\\\\n\n> cd;") := by rfl
+example : decodeText true true (a!"> \\\\\n> ab\\\\\n\n> cd;") = (a!"ab\\\ncd;") := by decide
+example : C02_plainAdmissible (a!";\\\nx") := Or.inl rfl
+example : C02_plainAdmissible (a!"ab\ncd\\") := Or.inr (by decide)
+example : ¬ C02_plainAdmissible (a!"ab\\ \ncd") := by
+  intro h; rcases h with h | h
+  · cases h
+  · revert h; decide
+-- the side condition matters: an unmarked body that looks marked is NOT decoded to itself
+example : decodeText true true (a!"ab\\ \ncd") ≠ (a!"ab\\ \ncd") := by decide
+
 end CifModel
